@@ -8,7 +8,7 @@ from typing import Iterable, Iterator
 
 from .dataflow import RD, attr_chain
 from .exprmodel import ExprClass
-from .loader import AnalysisError, FuncInfo, Tree, unparse, walk_function
+from .loader import AnalysisError, ClassInfo, FuncInfo, Tree, unparse, walk_function
 
 # --------------------------------------------------------------------------- R-SHALLOW
 
@@ -1358,7 +1358,23 @@ def code_text_kind(text: str, mark_kind) -> str:
     return worst
 
 
-def precedence_hazards(tree: Tree, fn: FuncInfo, undecided: list | None = None, fields_of_holes: dict | None = None) -> list[tuple[ast.AST, str]]:
+def printed_class_kind(tree: Tree, cls: ClassInfo, _seen: frozenset = frozenset()) -> str:
+    """Kind of the code text an INSTANCE of a repository class prints as: the worst kind over what its own
+    ``_numpycode`` returns ('unknown' if it has none the rule can read, or on recursion)."""
+    if cls.qual in _seen:
+        return "unknown"
+    method = tree.lookup_method(cls, "_numpycode")
+    if method is None or not method.qual.startswith("ampform"):
+        return "unknown"
+    value_kind = precedence_hazards(tree, method, _evaluator=True, _seen=_seen | {cls.qual})
+    order = {"atomic": 0, "product": 1, "arbitrary": 2, "unknown": 3}
+    returns = [r for r in walk_function(method.node) if isinstance(r, ast.Return)]
+    if not returns or any(r.value is None for r in returns):
+        return "unknown"
+    return max((value_kind(r.value) for r in returns), key=order.__getitem__)
+
+
+def precedence_hazards(tree: Tree, fn: FuncInfo, undecided: list | None = None, fields_of_holes: dict | None = None, _evaluator: bool = False, _seen: frozenset = frozenset()):
     """Placeholders of generated-code templates that sit next to an operator of higher
     precedence than what the printed sub-expression may have at its top level.
 
@@ -1429,6 +1445,13 @@ def precedence_hazards(tree: Tree, fn: FuncInfo, undecided: list | None = None, 
                         defs = rd.reaching(arg)
                         if defs and all(isinstance(d.node, ast.Assign) and any(d.node is st for st, _e, _t in self_args_unpackings(fn, tree)) for d in defs):
                             return kinds.get(fields_by_local[arg.id], "arbitrary")
+                    # a freshly constructed instance of a repository class: prints as whatever that class's own printer method returns
+                    built = inl.expr(arg) if inl and isinstance(arg, ast.Name) else arg
+                    if isinstance(built, ast.Call):
+                        target = tree.resolve(fn.module, built.func, fn)
+                        if target in tree.classes:
+                            k = printed_class_kind(tree, tree.classes[target], _seen)
+                            return "arbitrary" if k == "unknown" else k
                     return "arbitrary"
             if isinstance(f, ast.Attribute) and f.attr in {"strip", "lstrip", "rstrip"} and not node.args:
                 return value_kind(f.value, depth + 1)
@@ -1475,6 +1498,8 @@ def precedence_hazards(tree: Tree, fn: FuncInfo, undecided: list | None = None, 
             return worst
         return "unknown"
 
+    if _evaluator:
+        return value_kind
     templates = list(code_templates(fn.node))
     traced: dict | None = None
     printed_field: dict[int, str] = {}
